@@ -60,6 +60,8 @@ def cases(draw):
         "sign": draw(st.sampled_from(["mixed", "mixed", "one-sided"])),
         "w_axis": draw(st.sampled_from([0, 0, 0, -1])),  # 8-bit weights quantized along the input features (real mode)
         "seed": draw(st.integers(0, 2**20)),
+        # float activations held in a Parameter (learned prompt / query tokens fed to a projection) are float activations
+        "xwrap": draw(st.sampled_from(["tensor", "tensor", "tensor", "parameter"])),
     }
 
 
@@ -135,6 +137,13 @@ def wexpand(w, case):
 
 def build(case):
     """-> activations (float or QBytesTensor), quantized weight, bias or None"""
+    x, w, b = _build(case)
+    if case.get("xwrap") == "parameter" and not isinstance(x, QTensor):
+        x = torch.nn.Parameter(x, requires_grad=bool(case["seed"] % 2))
+    return x, w, b
+
+
+def _build(case):
     dtype = gen.DT[case["dtype"]]
     g = torch.Generator().manual_seed(case["seed"])
     K, N = case["inf"], case["outf"]
@@ -235,6 +244,7 @@ def judge(out, tag, case, res, ref, mag, x, w, want_shape, dtype):
         return
     if isinstance(res, QTensor):
         res = res.dequantize()
+    res = res.detach()
     if res.dtype != dtype:
         out.fail(f"{tag}/dtype", f"output {res.dtype}, activations {dtype}")
         return
@@ -413,6 +423,10 @@ def run_grid(ctx):
                                 for lay in ("transposed", "sliced"):
                                     cs.append({"dtype": dt, "act": act, "wq": wq, "rows": r, "brank": 1 + (n % 2), "inf": k, "outf": n, "bias": (r + n) % 2 == 0, "mode": "exact",
                                                "entry": "linear", "layout": lay, "ascale": "absmax", "group": 0, "per_tensor_w": ptw, "seed": ctx.seed * 1000 + r + 7 * k + 13 * n + 2})
+                            if entry == "linear" and act == "float" and (r + n) % 2 == 0:
+                                # float activations held in a Parameter
+                                cs.append({"dtype": dt, "act": act, "wq": wq, "rows": r, "brank": 1 + (r % 2), "inf": k, "outf": n, "bias": (r + k) % 2 == 1, "mode": "exact", "entry": "linear",
+                                           "layout": "contig", "ascale": "absmax", "group": 0, "per_tensor_w": ptw, "xwrap": "parameter", "seed": ctx.seed * 1000 + r + 7 * k + 13 * n + 4})
                             cs.append({"dtype": dt, "act": act, "wq": wq, "rows": r, "brank": 1 if entry != "linear" else 1 + (r % 2), "inf": k, "outf": n,
                                        "bias": (r + k) % 2 == 0, "mode": "exact", "entry": entry, "layout": "expanded" if (entry == "linear" and (r + k + n) % 5 == 0) else "contig", "ascale": "absmax", "group": 0,
                                        "per_tensor_w": ptw, "seed": ctx.seed * 1000 + r + 7 * k + 13 * n})
